@@ -21,6 +21,7 @@ from ..common import workdir, rm_workdir, seed, MachineryError, REPO, PY, VERIF
 
 MARK = [12001, 14001, 223000, 101002, 31031, 101000, 31001, 223255]
 POOL_DEF = [([14001, 12001], 13), ([14001, 12001], 33), (MARK, 13), (MARK, 33), ([102000, 31001, 12001, 2001], 35), ([203012, 12001, 203255, 12001, 301011], 19)]
+BAD = (7, 9, 10)
 QUERIES = ['/012001', '014001', '/223000', '> 031001', '/102000/002001', '/301011/004001']
 
 
@@ -67,6 +68,27 @@ def build_pool(run, wd):
     j8 = json.loads(json.dumps(pool[1]['flat_json']))
     j8[1][2], j8[1][11] = 85, 2
     pool[8] = dict(pool[1], octets=o8, flat_json=j8, key=1385)
+    # two more ways to fail, both on the table group of message 2 (version 33):
+    # message 9 fails while its template is BUILT: section 3 ends with a delayed replication that has no factor (001001 101000)
+    b9 = [b for b in fm94.gen_run(wd, 'MC_c13_pool_b9', [[1001, 1002]], mversion=33, compressions=(False,), subset_counts=(1,), seeds=(0,)).iter_emitted()][0]
+    o9 = list(b9['msg'])
+    s3 = 8 + int.from_bytes(bytes(o9[8:11]), 'big')          # edition 4, no section 2: section 3 follows sections 0 and 1
+    if o9[s3 + 9:s3 + 11] != [0x01, 0x02]:
+        raise MachineryError('pool message 9: section 3 is not where it was expected')
+    o9[s3 + 9:s3 + 11] = [0x41, 0x00]
+    pool[9] = {'octets': o9, 'flat_json': None, 'queries': [], 'key': 33, 'tmpl': [1001, 101000]}
+    # message 10 fails in the MIDDLE OF ITS DATA: message 4 (markers, version 33) without the last octet of section 4, lengths adjusted
+    o10 = list(pool[4]['octets'])
+    n4 = None
+    at = 8
+    for _ in range(3):                                        # sections 1, 3, 4 (no section 2)
+        ln = int.from_bytes(bytes(o10[at:at + 3]), 'big')
+        n4, at4 = ln, at
+        at += ln
+    o10 = o10[:at4 + n4 - 1] + o10[at4 + n4:]
+    o10[at4:at4 + 3] = list((n4 - 1).to_bytes(3, 'big'))
+    o10[4:7] = list((len(o10)).to_bytes(3, 'big'))
+    pool[10] = {'octets': o10, 'flat_json': None, 'queries': [], 'key': 33, 'tmpl': pool[4]['tmpl']}
     return pool
 
 
@@ -85,13 +107,14 @@ def run(run):
         ref = {}
         jobs = []
         for m, p in sorted(pool.items()):
-            if m == 7:
-                hist = [{'op': 'decode_fails', 'm': 7}]
-                jobs.append((m, [{'op': 'decode_ive', 'm': 7}]))
+            if m in BAD:
+                hist = [{'op': 'decode_fails', 'm': m}]
+                if m == 7:
+                    jobs.append((m, [{'op': 'decode_ive', 'm': 7}]))
             else:
                 hist = [{'op': 'decode', 'm': m}, {'op': 'query', 'm': m}, {'op': 'render', 'm': m}, {'op': 'rewire', 'm': m}]
             jobs.append((m, hist))
-            if m != 7:
+            if m not in BAD:
                 jobs.append((m, [{'op': 'encode', 'm': m}]))       # message 8: the reference result is the refusal
         with cf.ThreadPoolExecutor(8) as ex:
             futs = [ex.submit(run_worker, wd, 'ref%d_%d' % (i, m), {'pool': pool, 'histories': [h]}) for i, (m, h) in enumerate(jobs)]
@@ -99,8 +122,9 @@ def run(run):
                 steps = f.result()[0]
                 for st, res in zip(h, steps):
                     ref[(st['op'], m)] = res
-        if 'error' not in ref[('decode_fails', 7)]:
-            raise MachineryError('the damaged pool message decodes')
+        for m in BAD:
+            if 'error' not in ref[('decode_fails', m)]:
+                raise MachineryError('the damaged pool message %d decodes' % m)
         for (op, m), res in ref.items():
             if (op, m) == ('encode', 8):
                 if 'error' not in res:
@@ -116,9 +140,9 @@ def run(run):
         batches = []
         for (tgl, cmax) in configs:
             small = tgl == 0        # the reduced pool around the message whose tables are incomplete (see below)
-            consts = {'Msgs': '1..7' if not small else '{1, 3, 8}', 'KeyOf': '<<' + ', '.join(str(keys.index(pool[m]['key']) + 1) for m in range(1, 9)) + '>>',
-                      'TmplOf': '<<' + ', '.join(str(tmpls.index(pool[m]['tmpl']) + 1) for m in range(1, 9)) + '>>',
-                      'Bad': '{7}', 'Strict': '{8}' if small else '{}', 'TgLimit': str(tgl if not small else 2), 'CompMax': str(cmax), 'MaxLen': '4' if thorough else '3'}
+            consts = {'Msgs': '{1, 2, 3, 4, 5, 6, 7, 9, 10}' if not small else '{1, 3, 8}', 'KeyOf': '<<' + ', '.join(str(keys.index(pool[m]['key']) + 1) for m in range(1, 11)) + '>>',
+                      'TmplOf': '<<' + ', '.join(str(tmpls.index(pool[m]['tmpl']) + 1) for m in range(1, 11)) + '>>',
+                      'Bad': '{7, 9, 10}', 'Lenient': '{7}', 'Strict': '{8}' if small else '{}', 'TgLimit': str(tgl if not small else 2), 'CompMax': str(cmax), 'MaxLen': '4' if thorough else '3'}
             name = 'MC_caches_%d_%s' % (tgl, str(cmax).replace('-', 'm'))
             text = tlc.mc_module(name, ['Caches'], consts)
             cfg = tlc.mc_cfg(consts, invariants=['SizeBounded', 'NoDuplicateKeys', 'LastRequestedIsCached'], action_constraints=['EmitTransition'], view='View')
